@@ -17,7 +17,7 @@ import (
 // C11 — Control detects every divergence; Repair restores agreement (DESIGN 4/C11).
 
 func init() {
-	drivers["C11"] = &driver{cases: tierN(300, 6000), run: runC11}
+	drivers["C11"] = &driver{cases: tierN(300, 30000), run: runC11}
 }
 
 // hashFiles returns name -> sha256 of every non-schema file of a directory.
